@@ -350,10 +350,16 @@ func c16UnitV(p *Program, bound, maxExecs int, verdictOnly bool) *Unit {
 			ids = append(ids, s.ID)
 		}
 		if len(ids) <= 4 && len(ids) > 0 {
-			for r := 0; r < 3; r++ {
+			// further spellings: upper case, camel case, digits, one name a prefix of another
+			pool2 := []string{"Alpha", "stepTwo", "X_9", "ab", "abc"}
+			for r := 0; r < 5; r++ {
 				m := map[string]string{}
 				for i, id := range ids {
-					m[id] = pool[(i+r)%len(pool)] + fmt.Sprint(r)
+					if r < 3 {
+						m[id] = pool[(i+r)%len(pool)] + fmt.Sprint(r)
+					} else {
+						m[id] = pool2[(i+r)%len(pool2)]
+					}
 				}
 				q := renameProg(p, m)
 				body(q, m)()
